@@ -439,6 +439,12 @@ def run(ctx, spec):
         psets.append((f"stress{j}", dict(num_hosts=nh, num_services=nsrv, num_os=nos, num_processes=npr,
                                          restrictiveness=restr, exploit_probs=1.0, privesc_probs=1.0,
                                          r_sensitive=100, r_user=100, step_limit=500)))
+    # options nobody combines: a random goal inside an address space larger than the network, uniform hosts with
+    # OS-specific definitions, no escalation at all / more escalations than processes is excluded (D8)
+    psets.append(("combo0", dict(num_hosts=8, num_services=3, num_os=2, num_processes=2, random_goal=True,
+                                 address_space_bounds=(12, 9), restrictiveness=2, step_limit=300)))
+    psets.append(("combo1", dict(num_hosts=13, num_services=2, num_os=3, num_processes=3, random_goal=True, uniform=True,
+                                 address_space_bounds=(20, 5), restrictiveness=1, exploit_probs=None, privesc_probs=None)))
     # host counts around the boundaries of the subnet arithmetic (multiples of 40, 41 and 5)
     edge = [40, 41, 42, 43, 44, 79, 80, 81, 82, 83, 84, 85, 86, 120, 121, 122, 123, 124, 125]
     for nh in (rng.sample(edge[:13], 3) if tier == "quick" else edge):
@@ -450,6 +456,7 @@ def run(ctx, spec):
                 [x for x in psets if x[0] == "pocp-2-gen"]
     # ---- tie + per-scenario judgement
     cmds, meta = [], []
+    n_starved = 0
     from nasim.scenarios.generator import ScenarioGenerator
     reused = ScenarioGenerator()      # ONE generator object for the extra seeds of all small parameter sets
     for name, p in psets:
@@ -470,10 +477,33 @@ def run(ctx, spec):
                 continue
             cmds.append([13, pw, oracle])
             meta.append((name, p, s, sc, len(oracle)))
+        # the same parameter set fed by SCRIPTED draws (extremes mixed in): streams no pseudo-random generator shows
+        if p["num_hosts"] <= 16 and not name.startswith(("pocp", "hosts")):
+            for j in range(sizes.get("scripted", 2)):
+                srng = random.Random(f"{seed}/{name}/{j}")
+                try:
+                    r = genrec.generate_scripted(p, srng)
+                except Inexact:
+                    raise
+                except Exception as e:   # noqa: BLE001
+                    out["violations"].append(dict(kind="generator-params", property="C15", failing_input_found=True,
+                                                  signature=None, params=p, seed=f"scripted draws {seed}/{name}/{j}",
+                                                  what=f"the generator raised for documented-valid parameters on a scripted "
+                                                       f"stream of draws: {e!r}"[:400]))
+                    continue
+                if r is None:
+                    n_starved += 1
+                    continue
+                try:
+                    pw = genrec.params_wire(p)
+                except Inexact:
+                    continue
+                cmds.append([13, pw, r[1]])
+                meta.append((name, p, f"scripted draws {seed}/{name}/{j}", r[0], len(r[1])))
     mouts = run_driver_parallel(cmds, jobs=12) if cmds else []
     solv_cmds, solv_meta = [], []
     distinct = set()
-    stats = dict(generated=len(meta), model_ok=0, draws=0)
+    stats = dict(generated=len(meta), model_ok=0, draws=0, scripted_streams_starved=n_starved)
     for (name, p, s, sc, nor), m in zip(meta, mouts):
         out["evaluations"] += 1
         stats["draws"] += nor
@@ -489,7 +519,8 @@ def run(ctx, spec):
             continue
         distinct.add(hashlib.sha1(json.dumps(iw).encode()).hexdigest())
         where = dict(params=p, seed=s, name=name,
-                     generator_object_reused=bool(p["num_hosts"] <= 10 and s >= len(seeds) and not name.startswith(("pocp", "hosts"))))
+                     generator_object_reused=bool(isinstance(s, int) and p["num_hosts"] <= 10 and s >= len(seeds)
+                                                  and not name.startswith(("pocp", "hosts"))))
         if pid == "C15":
             # the property's clauses are judged on the implementation's scenario, whatever the tie says
             try:
